@@ -783,7 +783,11 @@ def ref(uri):
     with h5py.File(filepath) as f:
         if grouppath not in f:
             return False
-        return _is_cooler(f[grouppath])
+        try:
+            grp = f[grouppath]
+        except KeyError:
+            return False
+        return _is_cooler(grp)
 '''
 
 REF_LIST_COOLERS = '''
